@@ -46,6 +46,9 @@ structure Verdict where
 inductive In where
   | arrive (m : Msg)          -- DataReceived carrying a complete message
   | complete (v : Verdict)    -- HookCompleted for the hook the layer is paused on
+  | close (kills gone : Bool) -- the source closes.  `kills`: for the held message this counts as a kill by the remote
+                              -- (HTTP requests: check_killed finds the RequestProtocolError in the paused-event queue);
+                              -- `gone`: the destination is gone with it (a UDP association ends as a whole)
   deriving DecidableEq, Repr, Inhabited
 
 inductive Out where
@@ -57,10 +60,13 @@ inductive Out where
 structure L where
   paused : Option Msg := none     -- the message whose hook is pending
   queue : List Msg := []          -- _paused_event_queue
+  remoteKill : Bool := false      -- the source closed while a message was held, and the layer treats that as a kill
+  gone : Bool := false            -- the destination no longer exists
   deriving DecidableEq, Repr, Inhabited
 
-def afterHook (k : Kind) (m : Msg) (v : Verdict) : List Out :=
-  if k.honoursKill && v.killed then [.error m.id]
+def afterHook (k : Kind) (s : L) (m : Msg) (v : Verdict) : List Out :=
+  if k.honoursKill && (v.killed || (k == .http && s.remoteKill)) then [.error m.id]
+  else if s.gone then []
   else if k == .ws && v.dropped then []
   else [.send m.id v.content]
 
@@ -74,8 +80,10 @@ def step (k : Kind) (s : L) : In → L × List Out
     | none => (s, [])                       -- no completion without a pending hook
     | some m =>
       match s.queue with
-      | [] => ({ paused := none, queue := [] }, afterHook k m v)
-      | n :: q => ({ paused := some n, queue := q }, afterHook k m v ++ [.hook n.id])
+      | [] => ({ s with paused := none, queue := [] }, afterHook k s m v)
+      | n :: q => ({ s with paused := some n, queue := q }, afterHook k s m v ++ [.hook n.id])
+  | .close kills gone =>
+    ({ s with remoteKill := s.remoteKill || (kills && s.paused.isSome), gone := s.gone || gone }, [])
 
 /-- state and all outputs (oldest first) after a schedule -/
 def run (k : Kind) : L → List In → L × List Out
@@ -89,6 +97,7 @@ def arrivals : List In → List Nat
   | [] => []
   | .arrive m :: is => m.id :: arrivals is
   | .complete _ :: is => arrivals is
+  | .close _ _ :: is => arrivals is
 
 def Out.isSendOf (id : Nat) : Out → Bool
   | .send i _ => i == id
